@@ -49,7 +49,9 @@ pub fn dispatch() -> bool {
         "--verif-run" => {
             let nonce = args.get(2).cloned().unwrap_or_default();
             let path = args.get(3).cloned().unwrap_or("t.sd".to_string());
-            run_batch(&nonce, &path);
+            let limit_ms =
+                args.get(4).and_then(|s| s.parse().ok()).unwrap_or(0);
+            run_batch(&nonce, &path, limit_ms);
             true
         },
         _ => false,
@@ -531,14 +533,34 @@ fn run_one(path: &str, src: &str) -> Result<(), String> {
     }
 }
 
-fn run_batch(nonce: &str, path: &str) {
+// `run_batch` runs one script per input line. With a per-case limit (in
+// milliseconds, `0` for none), a watchdog thread reports a case that runs
+// longer as `STATUS <nonce> timeout x` and ends the process, so that the
+// caller can resume with the next case.
+fn run_batch(nonce: &str, path: &str, limit_ms: u64) {
     panic::set_hook(Box::new(|_| {}));
+    let progress = Arc::new(Mutex::new((0usize, std::time::Instant::now())));
+    if limit_ms > 0 {
+        let progress = progress.clone();
+        let nonce = nonce.to_string();
+        std::thread::spawn(move || loop {
+            std::thread::sleep(std::time::Duration::from_millis(25));
+            let (i, t0) = *progress.lock().unwrap();
+            if t0.elapsed().as_millis() as u64 > limit_ms {
+                println!("STATUS {nonce} timeout x");
+                println!("END {nonce} {i}");
+                let _ = std::io::stdout().flush();
+                std::process::exit(0);
+            }
+        });
+    }
     let stdin = std::io::stdin();
     for (i, line) in stdin.lock().lines().enumerate() {
         let line = match line {
             Ok(l) => l,
             Err(_) => break,
         };
+        *progress.lock().unwrap() = (i, std::time::Instant::now());
         println!("BEGIN {nonce} {i}");
         match unhex(&line).map(String::from_utf8) {
             Some(Ok(src)) => {
